@@ -213,6 +213,7 @@ def units(tier):
         us.append({"chains": cs[i:i + 6]})
     us.append({"kind": "flags"})
     us.append({"kind": "index-after"})
+    us.append({"kind": "entry-context"})
     return us
 
 
@@ -387,6 +388,13 @@ def run_unit(unit, tier):
     if unit.get("kind") == "index-after":
         run_index_after(r)
         return r
+    if unit.get("kind") == "entry-context":
+        # the keyword context is the outermost frame whichever entry point creates it: this.k, this._params.k at top level and
+        # this._.k from inside a Struct resolve the same through parse / parse_stream / parse_file / build / build_stream / build_file
+        # (the enumeration is the one of C17's entry-kw unit: every context-parameter slot x reference x keyword value)
+        from .c17 import run_entry_kw
+        run_entry_kw(r, prop="C07")
+        return r
     for chain in unit["chains"]:
         dpos = [i for i, k in enumerate(chain) if k in ("ArrayD", "GreedyRangeD")]
         if dpos and "LazyStruct" in chain[dpos[0]:]:
@@ -420,6 +428,9 @@ def run_unit(unit, tier):
 
 
 def replay(case):
+    if "entrykw" in case:
+        from .c17 import run_entry_kw
+        r = UnitResult(); run_entry_kw(r, only=case["entrykw"], prop="C07"); return r.violations
     if "flags" in case:
         r = UnitResult(); run_flags(r); return r.violations
     if "index_after" in case:
